@@ -27,7 +27,7 @@ def run_check(tier):
     pairs = []
     for ps, ws in slices:
         for part in mp.gen_chunks("MC_LoadScript", {"Mode": '"fields"', "MaxOps": 2, "Widths": ws, "Pads": mp.tla_set(ps)},
-                                  ["SentinelIntact", "UnchangedOnFailure", "Export"], "fields-w8-p%d-%s" % (ps[0], ws[1]), chk, timeout=3000, xmx="8g", chunk=50000):
+                                  ["SentinelIntact", "UnchangedOnFailure", "Export"], "fields-w8-p%d-%s" % (ps[0], ws[1]), chk, timeout=3000, xmx="8g", chunk=15000):
             pp = mp.replay(part, ["mem", "sstream", "short3", "nonseek"] if quick else mp.MEDIA_SEEKABLE + ["nonseek"], 8, "f8")
             mp.judge(chk, pp, "MsgPack scripted load")
             mp.validate_scope_states(chk, pp, "MsgPack scripted load")
@@ -38,8 +38,8 @@ def run_check(tier):
         # longer histories (up to 6 requests) by seeded simulation of the same state machine
         sim = mp.gen("MC_LoadScript", {"Mode": '"fields"', "MaxOps": 6, "Widths": "{0, 2}", "Pads": "{0, 3}"},
                      ["SentinelIntact", "UnchangedOnFailure", "Export"], "fields-sim", chk, timeout=1800, xmx="8g", simulate=800, depth=7)
-        for lo in range(0, len(sim), 40000):             # bounded memory: 40k scenarios x 4 media at a time
-            pp = mp.replay(sim[lo:lo + 40000], mp.MEDIA_SEEKABLE, 8, "fs")
+        for lo in range(0, len(sim), 15000):             # bounded memory: 40k scenarios x 4 media at a time
+            pp = mp.replay(sim[lo:lo + 15000], mp.MEDIA_SEEKABLE, 8, "fs")
             mp.judge(chk, pp, "MsgPack scripted load (long history)")
             chk.add_cases(len(pp), validated=len(pp))
             del pp
